@@ -6,6 +6,7 @@ from engine.astutil import U, calls, kwargs, single_defs, inline, walk_own, call
 from engine.cfg import CFG
 from engine.norm import Norm, Poly, parse_expr
 from engine.repo import AnalysisError
+from . import common
 
 EXPLANATION = (
     "Algebraic shape of every block of LegacySparseDrugComboImpl compared with forms derived independently from the "
@@ -35,8 +36,9 @@ RULES = {
     "R9": "exported state wiring and predictor == _reconstruct_Mu under renaming",
     "R10": "the row-index lists the blocks read through hold row numbers derived from the sampler's row count",
     "R11": "encode_obs hands out (y, cline, dd1, dd2) - the four observation lists, each under its own name and in this order; n_obs is len(self.y)",
+    "R12": "constructor options are live: every attribute the constructor binds from a parameter is read by a method of the class (`intercept` and `individual_eff` of the legacy sampler are unread on the reviewed tree and exempt)",
 }
-MIN = {"R1": 3, "R2": 5, "R3": 7, "R4": 18, "R5": 5, "R6": 9, "R7": 2, "R8": 3, "R9": 3, "R10": 3, "R11": 2}
+MIN = {"R1": 3, "R2": 5, "R3": 7, "R4": 18, "R5": 5, "R6": 9, "R7": 2, "R8": 3, "R9": 3, "R10": 3, "R11": 2, "R12": 1}
 TRUSTED = ["own derivation of the full conditionals from the stated model (table BLOCKS below, DESIGN.md A.4)",
            "numpy/scipy: cholesky returns the lower factor; solve_triangular / cho_solve semantics",
            "row stacks distribute over right-multiplication (np.concatenate([a, b]) @ v == concatenate([a @ v, b @ v]))"]
@@ -1057,7 +1059,11 @@ def r11(ctx):
     ctx.check("R11", f"{g.site()}::row-count", ok, "n_obs is the number of stored observations", f"n_obs returns `{U(rr[0].value) if rr else None}`")
 
 
-RULE_FUNCS = [r1, r234, r5, r6, r7, r8, r9, r10, r11]
+def r_options(ctx):
+    common.options_are_live(ctx, "R12", ["batchie.models.sparse_combo.LegacySparseDrugComboImpl"], exempt=("intercept", "individual_eff"))
+
+
+RULE_FUNCS = [r1, r234, r5, r6, r7, r8, r9, r10, r11, r_options]
 
 
 def run(ctx):
